@@ -853,7 +853,7 @@ def run(ck: core.Check):
         # ---- (b') round 10: the whole program as ONE requirement tree (Func.PGraph): preqG == the real build's
         # opset_req, policy == the model's opsets, and for every reachable Function node (bodiesG order) the body
         # build's opset_req, the node's own opset_req (own ∪ body) and the FunctionProto's imports
-        pst = {"programs": 0, "bodies": 0, "mismatches": 0, "unobservable": 0, "nested_bodies": 0, "with_extra": 0,
+        pst = {"programs": 0, "bodies": 0, "mismatches": 0, "unobservable": 0, "with_extra": 0,
                "max_bodies": 0}
         pun = [rec for rec in progs if rec.get("pgraph") is None]
         if pun:
